@@ -3,127 +3,90 @@ package extract
 import (
 	"fmt"
 	"go/ast"
-	"go/types"
-	"path/filepath"
-	"reflect"
-	"sort"
-	"strconv"
 	"strings"
 )
 
 // ReportTags: the fields of the report structs (C17) — Go name, JSON key,
-// omitempty, `json:"-"`, and the field's type as written — so that the JSON
-// model of Model/ReportJson.lean is compared with the sources on every run.
+// omitempty, `json:"-"`, and the field's type as written inside package
+// claircore — so that the JSON model of Model/ReportJson.lean is compared with
+// the code on every run.
+//
+// Evaluated (design/EXTRACT.md): the probe go/cmd/rxprobe/enums describes the
+// real types by reflection (field order, json tags, types, and whether the
+// struct or its pointer has a (Un)MarshalJSON / (Un)MarshalText method), so the
+// facts do not depend on the file a struct is declared in, on how fields are
+// grouped in the declaration, on other keys of the tag or on type aliases.
 func init() {
 	Register(Gen{Name: "ReportTags", Run: func(repo string) (string, error) {
-		srcs := []struct {
-			file    string
-			structs []string
-		}{
-			{"indexreport.go", []string{"IndexReport"}},
-			{"vulnerabilityreport.go", []string{"VulnerabilityReport"}},
-			{"package.go", []string{"Package"}},
-			{"vulnerability.go", []string{"Vulnerability"}},
-			{"distribution.go", []string{"Distribution"}},
-			{"repository.go", []string{"Repository"}},
-			{"environment.go", []string{"Environment"}},
-			{"version.go", []string{"Range"}},
-		}
-		var files []string
-		for _, s := range srcs {
-			files = append(files, s.file)
-		}
+		want := []string{"IndexReport", "VulnerabilityReport", "Package", "Vulnerability", "Distribution", "Repository", "Environment", "Range"}
+		files := []string{"indexreport.go", "vulnerabilityreport.go", "package.go", "vulnerability.go", "distribution.go", "repository.go", "environment.go", "version.go"}
 		out := Header("ReportTags", files...)
+		var ans struct {
+			Structs []struct {
+				Name   string
+				Fields []struct {
+					Name, Tag, Type            string
+					HasTag, Embedded, Exported bool
+				}
+				Methods []string
+			} `json:"structs"`
+		}
+		if err := rxProbe(repo, "enums", map[string]any{}, &ans); err != nil {
+			return "", err
+		}
+		if len(ans.Structs) != len(want) {
+			return "", fmt.Errorf("reporttags probe: %d structs described, expected %d", len(ans.Structs), len(want))
+		}
 		out += "/-- struct ↦ fields in order: (Go name, JSON key bytes, omitempty, json:\"-\", type as written) -/\n"
 		out += "def tags : List (String × List (String × List Nat × Bool × Bool × String)) := [\n"
-		first := true
-		for _, s := range srcs {
-			_, f, err := ParseFile(repo, s.file)
-			if err != nil {
-				return "", err
+		var custom []string
+		for si, st := range ans.Structs {
+			if st.Name != want[si] {
+				return "", fmt.Errorf("reporttags probe: struct %d is %s, expected %s", si, st.Name, want[si])
 			}
-			for _, name := range s.structs {
-				st := c17FindStruct(f, name)
-				if st == nil {
-					return "", fmt.Errorf("struct %s not found in %s", name, s.file)
+			var rows []string
+			for _, fld := range st.Fields {
+				if fld.Embedded {
+					return "", fmt.Errorf("embedded field in %s: the JSON model does not cover embedding", st.Name)
 				}
-				var rows []string
-				for _, fld := range st.Fields.List {
-					typ := types.ExprString(fld.Type)
-					tag := ""
-					if fld.Tag != nil {
-						t, err := strconv.Unquote(fld.Tag.Value)
-						if err != nil {
-							return "", err
-						}
-						tag = reflect.StructTag(t).Get("json")
+				if !fld.Exported {
+					continue
+				}
+				key, omit, skip := fld.Name, false, false
+				tag := fld.Tag
+				if tag == "-" {
+					skip = true
+					key = ""
+				} else if tag != "" {
+					parts := strings.Split(tag, ",")
+					if parts[0] != "" {
+						key = parts[0]
 					}
-					names := fld.Names
-					if len(names) == 0 {
-						return "", fmt.Errorf("embedded field in %s: the JSON model does not cover embedding", name)
-					}
-					for _, n := range names {
-						if !n.IsExported() {
-							continue
+					for _, o := range parts[1:] {
+						switch o {
+						case "omitempty":
+							omit = true
+						default:
+							return "", fmt.Errorf("%s.%s: json option %q is not modelled", st.Name, fld.Name, o)
 						}
-						key, omit, skip := n.Name, false, false
-						if tag == "-" {
-							skip = true
-							key = ""
-						} else if tag != "" {
-							parts := strings.Split(tag, ",")
-							if parts[0] != "" {
-								key = parts[0]
-							}
-							for _, o := range parts[1:] {
-								switch o {
-								case "omitempty":
-									omit = true
-								default:
-									return "", fmt.Errorf("%s.%s: json option %q is not modelled", name, n.Name, o)
-								}
-							}
-						}
-						kb := make([]int64, len(key))
-						for i := 0; i < len(key); i++ {
-							kb[i] = int64(key[i])
-						}
-						rows = append(rows, fmt.Sprintf("    (%s, %s, %v, %v, %s)", LeanString(n.Name), LeanNatList(kb), omit, skip, LeanString(typ)))
 					}
 				}
-				if !first {
-					out += ",\n"
+				kb := make([]int64, len(key))
+				for i := 0; i < len(key); i++ {
+					kb[i] = int64(key[i])
 				}
-				first = false
-				out += fmt.Sprintf("  (%s, [\n%s])", LeanString(name), strings.Join(rows, ",\n"))
+				rows = append(rows, fmt.Sprintf("    (%s, %s, %v, %v, %s)", LeanString(fld.Name), LeanNatList(kb), omit, skip, LeanString(fld.Type)))
+			}
+			if si > 0 {
+				out += ",\n"
+			}
+			out += fmt.Sprintf("  (%s, [\n%s])", LeanString(st.Name), strings.Join(rows, ",\n"))
+			// a MarshalJSON / UnmarshalJSON on a report struct would bypass the field-wise model
+			for _, m := range st.Methods {
+				custom = append(custom, st.Name+"."+m)
 			}
 		}
 		out += "]\n"
-		// which methods marshal: a MarshalJSON / UnmarshalJSON on a report struct would bypass the field-wise model
-		var custom []string
-		all, err := filepath.Glob(filepath.Join(repo, "*.go"))
-		if err != nil {
-			return "", err
-		}
-		sort.Strings(all)
-		for _, path := range all {
-			if strings.HasSuffix(path, "_test.go") {
-				continue
-			}
-			_, f, err := ParseFile(repo, filepath.Base(path))
-			if err != nil {
-				return "", err
-			}
-			for _, s := range srcs {
-				for _, name := range s.structs {
-					for _, m := range []string{"MarshalJSON", "UnmarshalJSON", "MarshalText", "UnmarshalText"} {
-						if FuncDecl(f, name, m) != nil {
-							custom = append(custom, name+"."+m)
-						}
-					}
-				}
-			}
-		}
 		out += "\n/-- custom (un)marshalers declared on the report structs themselves (the model assumes none) -/\n"
 		out += "def customMarshalers : List String := " + LeanStrList(custom) + "\n"
 		return out + Footer("ReportTags"), nil
